@@ -24,7 +24,7 @@ ASSUMPTIONS = ['the reference machine sim/fjmodel.py is the meaning of the state
 def plan(tier):
     if tier == 'thorough':
         return {'cases': 600000, 'chunk': 500, 'budget_s': 1200, 'case_timeout_s': 20, 'minimise_budget_s': 180}
-    return {'cases': 40000, 'chunk': 250, 'budget_s': 75, 'case_timeout_s': 20, 'minimise_budget_s': 60}
+    return {'cases': 120000, 'chunk': 500, 'budget_s': 70, 'case_timeout_s': 20, 'minimise_budget_s': 60}
 
 
 def gen(rng, index, tier):
@@ -52,3 +52,7 @@ def minimise(case, violation):
 
 def signature(case, violation):
     return enginesim.signature(case, violation)
+
+
+def adequacy(tier, agg):
+    return B.adequacy(tier, agg, None)
